@@ -29,6 +29,10 @@ import (
 )
 
 func main() {
+	if len(os.Args) == 4 && os.Args[1] == "-helper" {
+		core.RunHelper(os.Args[2], os.Args[3])
+		return
+	}
 	if len(os.Args) == 3 && os.Args[1] == "-child" {
 		specgen.ChildMain(os.Args[2])
 		return
